@@ -445,11 +445,9 @@ func c14Run(s *c14Scn) (c14Obs, []Mon, string) {
 			step.ParseOK = c14ParseOK(curSpec.Source)
 			reg.answer = step.Head
 			plan := map[int]Outcome{}
-			lastFault = "none"
 			for _, f := range step.Faults {
 				if _, dup := plan[f.K]; !dup {
 					plan[f.K] = c14Outcome(f.O)
-					lastFault = f.O
 				}
 			}
 			st.Revive()
@@ -496,6 +494,11 @@ func c14Run(s *c14Scn) (c14Obs, []Mon, string) {
 			}
 			lastRes = ro.Res
 			log := append([]CallInfo{}, st.Log...)
+			for _, c := range log {
+				if c.Outcome != "" && c.Outcome != "ok" {
+					lastFault = c.Outcome + "->" + ro.Res // a fault that actually hit a call, and how that reconcile ended
+				}
+			}
 			st.Revive()
 			ro.Pkg = c14PkgObsOf(st, k, s.Pkg.Name)
 			obs.Recs = append(obs.Recs, ro)
@@ -530,8 +533,19 @@ func c14Run(s *c14Scn) (c14Obs, []Mon, string) {
 				if cur == nil {
 					addMon("C14:current-missing", fmt.Sprintf("reconcile %d succeeded but revision %s does not exist", nRec, curName))
 				} else {
+					// "numbered last": strictly when the numbers were distinct before the reconcile
+					distinct := true
+					seenNum := map[int64]bool{}
+					for _, r := range before {
+						if r.Parent == pn {
+							if seenNum[r.Number] {
+								distinct = false
+							}
+							seenNum[r.Number] = true
+						}
+					}
 					for _, r := range final {
-						if r.Parent == pn && r.Name != curName && r.Number > cur.Number {
+						if r.Parent == pn && r.Name != curName && (r.Number > cur.Number || (distinct && r.Number == cur.Number)) {
 							addMon("C14:current-not-highest", fmt.Sprintf("current %s has number %d, %s has %d", curName, cur.Number, r.Name, r.Number))
 						}
 					}
@@ -923,7 +937,39 @@ func c14Exhaust(base c14Scn, emit func(c14Scn)) {
 	}
 }
 
+// c14Probes: inputs on which the naming function of the current tree is tabulated
+// into lean/Xp/Gen/PkgNames.lean (the Lean model must reproduce the table by `decide`).
+var c14Probes = [][2]string{
+	{"p", c14Digests[0]},
+	{"provider-aws", c14Digests[1]},
+	{"my.pkg.name", c14Digests[2]},
+	{c14Names[3], c14Digests[3]},
+	{"UPPER.lower/x:y", "abc"},
+	{"-lead.trail-", "-h-"},
+	{"", ""},
+	{"a", ""},
+	{strings.Repeat("ab.", 30), strings.Repeat("9", 70)},
+	{strings.Repeat("x", 49) + ".", "0123456789abcdef"},
+	{"xpkg.io/org/pkg:v1", "deadbeefdeadbeef"},
+}
+
 func init() {
+	RegisterDump("PkgNames", func() string {
+		var sb strings.Builder
+		sb.WriteString("/-- xpkg.FriendlyID of the current tree on fixed probes: (name, hash, result) -/\n")
+		sb.WriteString("def friendlyProbes : List (String × String × String) := [\n")
+		for i, p := range c14Probes {
+			sep := ","
+			if i == len(c14Probes)-1 {
+				sep = ""
+			}
+			sb.WriteString("  (" + leanStr(p[0]) + ", " + leanStr(p[1]) + ", " + leanStr(xpkg.FriendlyID(p[0], p[1])) + ")" + sep + "\n")
+		}
+		sb.WriteString("]\n")
+		sb.WriteString("/-- pkgv1.LabelParentPackage, PackageRevisionActive, PackageRevisionInactive, AutomaticActivation, ManualActivation -/\n")
+		sb.WriteString("def pkgConstants : List String := " + leanStrList([]string{pkgv1.LabelParentPackage, string(pkgv1.PackageRevisionActive), string(pkgv1.PackageRevisionInactive), string(pkgv1.AutomaticActivation), string(pkgv1.ManualActivation)}) + "\n")
+		return sb.String()
+	})
 	Register("C14", func(c *Ctx) {
 		run := func(s c14Scn, cls string) {
 			obs, mons, k := c14Run(&s)
@@ -946,7 +992,7 @@ func init() {
 			case x < 9:
 				run(c14GenRollback(c.Rng), "rollback")
 				i++
-			case x == 9 && c.N-i > 60:
+			case x == 9 && c.N-i > 60 && c.Rng.Chance(1, 3):
 				base := c14Gen(c.Rng, c.Tier)
 				if c.Rng.Bool() {
 					base = c14GenRollback(c.Rng)
